@@ -5,6 +5,7 @@
 (*   cls, rel : the hierarchy that was built (MediaInherit case format)    *)
 (*   events   : in the order they happened                                 *)
 (*     op "create": class c was created; out = ok | improperly | typeerror *)
+(*         and the MRO Python computed (checks the C3 transcription)       *)
 (*     op "access": attribute a of class c was read (via the class or an   *)
 (*         instance); for a = media the observed lists js / all / print    *)
 (*         (file ids; 99 = a file nobody declared; other = number of       *)
@@ -53,11 +54,12 @@ Obs(e, t) == CASE t = "js" -> e.js [] t = "all" -> e.all [] t = "print" -> e.pri
 \* the clauses of the specification the observation of event e violates (short codes, so
 \* that a verdict line never wraps): F files = exactly the union, O each file once, R order,
 \* X unexpected css media type, S the abstract machine itself is off, E exception,
-\* C creation outcome, N nearest-class rule, L <pair>_file form
+\* C creation outcome, M Python's MRO differs from Mro(c), N nearest-class rule, L <pair>_file form
 Failing(e) ==
   IF e.op = "create"
   THEN (IF e.out \in Creation(kase, e.c) THEN {}
-        ELSE {"C." \o e.out \o "/" \o (CHOOSE x \in Creation(kase, e.c) : TRUE)})
+        ELSE {"C." \o e.out \o "/" \o (CHOOSE x \in Creation(kase, e.c) : TRUE)}) \cup
+       (IF e.out = "ok" /\ e.mro # Mro(kase, e.c).seq THEN {"M.mro"} ELSE {})
   ELSE IF e.exc THEN {"E." \o e.a}
   ELSE IF e.a = "media" THEN
        {"F." \o t : t \in {t \in Types : ~FilesOK(Obs(e, t), kase, e.c, t)}} \cup
